@@ -767,3 +767,26 @@ def _aged_nondefault(rng, cls, values, dt, **kw):
                         pass
     s.reset_values(values)                          # and nothing is read afterwards
     return s
+
+
+# ---- round 9 (hx_r9b): reduced-precision floating arrays whose neighbouring products underflow in their own precision ---------------------
+def low_precision_tiny(v, with_event=True):
+    """whole-number series (|x| <= 7) stored in a reduced-precision floating dtype at a magnitude where the PRODUCT of two neighbouring
+    samples / differences underflows to (+-)0 in that dtype although every value and every difference is exactly representable in it:
+    float16 x 2^-13 and x 2^-16 (values are half-precision subnormals, products < 2^-25), float32 x 2^-80 and x 2^-140 (products < 2^-150),
+    and the 'quiet stretch + event' shape: the same tiny series followed by its O(1) image (x 1) in the same array.
+    (label, reduced-precision ndarray, the SAME numbers as float64 ndarray = the reference: a library that works in float64 cannot tell them apart)"""
+    a = np.asarray(v, dtype=float)
+    if not (a.ndim == 1 and a.size and np.all(a == np.round(a)) and np.max(np.abs(a)) <= 7):
+        return []
+    out = []
+    for label, dt, k in (('float16*2^-13', np.float16, -13), ('float16*2^-16', np.float16, -16), ('float32*2^-80', np.float32, -80),
+                         ('float32*2^-140', np.float32, -140)):
+        f = a * 2.0 ** k
+        out.append((label, f.astype(dt), f.copy()))
+        if with_event:
+            g = np.concatenate([f, a[::-1] * 0.25, f[::-1]])
+            out.append((label + '+event', g.astype(dt), g.copy()))
+    for _, lo, f in out:
+        assert np.array_equal(lo.astype(float), f)
+    return out
